@@ -83,6 +83,12 @@ class CallMixin:
             return [(st, v)]
         if n in ("all", "any") and len(e.args) == 1 and isinstance(e.args[0], ast.GeneratorExp):
             return [(st, mk_bool(self.quantifier(n, e.args[0], st)))]
+        if n == "has_attr":
+            o = self.ev1(e.args[0], st)
+            if o.ty.kind == "opt":
+                o = opt_inner(o)
+            attr = e.args[1].value
+            return [(st, mk_bool(smt.app(self.ctx.fun("cls_hasattr_" + attr, [INT], BOOL), BOOL, self.typeof(o.ts[0]))))]
         if n == "typeof_is_cls":
             o = self.ev1(e.args[0], st)
             if o.ty.kind == "opt":
@@ -104,6 +110,23 @@ class CallMixin:
             if v.ty.kind == "opt":
                 v = opt_inner(v)
             return [(st, mk_bool(self.alloc0(v.ts[0])))]
+        if n == "dict_subset":
+            a, b = self.ev1(e.args[0], st), self.ev1(e.args[1], st)
+            ks = flatten(a.ty.args[0])[0]
+            def body(k):
+                same = [smt.Eq(smt.Select(x, k), smt.Select(y, k)) for x, y in zip(a.ts[1:], b.ts[1:])]
+                return smt.Implies(smt.Select(a.ts[0], k), smt.And(smt.Select(b.ts[0], k), *same))
+            if self.goal_mode and self.polarity == 1:
+                sk = self.ctx.fresh("sk_key", ks)
+                self.skolems.append(sk)
+                return [(st, mk_bool(body(sk)))]
+            self.qcount += 1
+            kn = "key!q%d" % self.qcount
+            inner = body(T(kn, ks))
+            q = smt.Forall([(kn, ks)], inner)
+            self.ctx.qreg[q.s] = (kn, inner.s, ks)
+            self.ctx.qtag.setdefault(q.s, self.cur_clause)
+            return [(st, mk_bool(q))]
         if n == "all_absent":
             d = self.ev1(e.args[0], st)
             if d.ty.args[0].kind == "unknown":
@@ -185,7 +208,7 @@ class CallMixin:
         if kind == "all":
             inner = smt.Implies(rng, body)
             q = smt.Forall([(vname, INT)], inner)
-            self.ctx.qreg[q.s] = (vname, inner.s)
+            self.ctx.qreg[q.s] = (vname, inner.s, INT)
             self.ctx.qtag.setdefault(q.s, self.cur_clause)
             return q
         return smt.Exists([(vname, INT)], smt.And(rng, body))
@@ -273,9 +296,19 @@ class CallMixin:
                         out += self.apply_contract(con, args, kw, s2, exc, site=src)
                 return out
             for s, pos, kw in self.eval_args(e, st, exc):
-                out += self.apply_contract(con, pos, kw, s, exc, site=src)
+                if isinstance(e.func, ast.Name) and e.func.id in s.env and list(con.types)[:1] == ["cls"]:
+                    pos = [s.env[e.func.id]] + pos
+                out += self.apply_contract(con, pos, kw, s, exc, site=src, arg_asts=e.args)
             return out
         mode = directive.split(":")
+        if mode[0] in ("noraise", "ignore") and isinstance(e.func, ast.Attribute) and isinstance(e.func.value, ast.Attribute):
+            # the receiver chain is not evaluated: the whole call is abstracted
+            out = []
+            for s, pos, kw in self.eval_args(e, st, exc):
+                self.note("call %s abstracted as a total function (receiver not evaluated)" % src)
+                rty = parse_type(mode[1]) if len(mode) > 1 else TANY
+                out.append((s, NONE if rty.kind == "none" else self.opaque("call_" + re.sub(r"\W", "_", src), pos)))
+            return out
         if mode[0] == "inline":
             fnode = extract.find(directive[len("inline:"):]).node
             out = []
@@ -513,7 +546,7 @@ class CallMixin:
             if con is not None:
                 out = []
                 for s, pos, kw in self.eval_args(e, st, exc):
-                    out += self.apply_contract(con, pos, kw, s, exc, site=sn)
+                    out += self.apply_contract(con, pos, kw, s, exc, site=sn, arg_asts=e.args)
                 return out
             if "." in sn and sn.rsplit(".", 1)[0].split(".")[-1] in C.CLASSES:
                 # Class.method(...) static call
@@ -690,7 +723,7 @@ class CallMixin:
                 self.heap_havoc(st, m[2:])
             elif "." in m:
                 p, f = m.split(".", 1)
-                obj = penv[p]
+                obj = penv[p] if p in penv else self.global_value(p, st)
                 if obj.ty.kind == "opt":
                     obj = opt_inner(obj)
                 self.heap_havoc(st, f, at=obj.ts[0])
@@ -725,8 +758,18 @@ class CallMixin:
                 st.assume(t)
         return self.truthy(v)
 
-    def apply_contract(self, con, pos, kw, st, exc, site=""):
+    def apply_contract(self, con, pos, kw, st, exc, site="", arg_asts=None):
         penv = self.bind_params(con, pos, kw, st)
+        if not con.pure:
+            st.calls += 1
+        mut_targets = {}
+        if con.mutates:
+            names = [p for p, _ in self.callee_params(con)]
+            for m in con.mutates:
+                k = names.index(m)
+                if arg_asts is None or k >= len(arg_asts) or not isinstance(arg_asts[k], (ast.Name, ast.Attribute)):
+                    raise Unsupported("argument for in-place parameter %s of %s must be a variable" % (m, con.id))
+                mut_targets[m] = arg_asts[k]
         self.callsites[site] = self.callsites.get(site, 0) + 1
         tag = "%s@%s" % (con.id.split(":")[1], site)
         if not self.spec_mode:
@@ -742,8 +785,15 @@ class CallMixin:
             for ename, posts in con.raises.items():
                 bad = st.copy()
                 self.havoc_modifies(con, bad, penv)
-                if ename in ("*", "BaseException", "Exception") or ename not in self.bases:
-                    ex = self.exc_symbolic(bad, "Exception" if ename in ("*", "Exception") else "BaseException" if ename == "BaseException" else "Exception", "callee")
+                base_name, excluded = ename.split("!")[0], ename.split("!")[1:]
+                if base_name in ("*", "BaseException", "Exception") or base_name not in self.bases:
+                    for x in excluded:
+                        if x in self.bases and x not in self.relevant_exceptions():
+                            self._relevant_exc = None
+                            self.callee_exc_names.add(x)
+                    ex = self.exc_symbolic(bad, "BaseException" if base_name == "BaseException" else "Exception", "callee")
+                    for x in excluded:          # "*!NoMatchError": any exception that is not a NoMatchError
+                        bad.assume(smt.Not(self.issub_term(ex.cls_term, x)))
                 else:
                     ex = Exc(ename)
                 for name, expr in posts.items():
@@ -751,6 +801,11 @@ class CallMixin:
                 if not bad.infeasible():
                     exc.append(Outcome("raise", bad, ex))
         self.havoc_modifies(con, st, penv)
+        if mut_targets:
+            penv = dict(penv)
+            for m, tgt in mut_targets.items():
+                penv[m] = self.fresh_sv(penv[m].ty, "mut_" + m, st)
+                self.assign_to(tgt, penv[m], st, exc)
         if rty.kind == "none":
             res = NONE
         elif con.pure and not con.modifies:
